@@ -2553,7 +2553,10 @@ impl Melda {
             .expect("expecting_winning_order");
         let new_order = new_descriptor.get_order().as_ref().unwrap();
         let patch = make_diff_patch(&winning_order, new_order).expect("failed_diffing");
-        if patch.is_empty() {
+        if rt.get_winner().expect("no_winner").is_deleted() {
+            // There is no previous version to diff against: store the full descriptor
+            Ok(Some(new_descriptor.to_json_object()))
+        } else if patch.is_empty() {
             Ok(None)
         } else {
             Ok(Some(
